@@ -2322,6 +2322,47 @@ fn main() {
             let _ = owner.join();
             println!("open_after_close={}", if raindb::DB::open(o.clone()).is_ok() { "ok" } else { "err" });
         }
+        // close_during_size_compaction : disk file system (real flock). Four level-0 tables make a size-triggered compaction necessary
+        // (no flush, no manual request pending); the compaction is parked for 2 s when it creates its output file; meanwhile the
+        // database is dropped on another thread. While the compaction is in flight the instance still owns the directory: an
+        // open attempt must be refused
+        "close_during_size_compaction" => {
+            use raindb::WriteOptions;
+            let disk: std::sync::Arc<dyn raindb::fs::FileSystem> = std::sync::Arc::new(raindb::fs::TmpFileSystem::new(None));
+            let hfs = std::sync::Arc::new(rdbv::hookfs::HookFs::new(std::sync::Arc::clone(&disk)));
+            let mut o = raindb::DbOptions::with_memory_env();
+            o.filesystem_provider = hfs.clone();
+            o.db_path = "db".to_string();
+            o.create_if_missing = true;
+            let db = raindb::DB::open(o.clone()).expect("open");
+            db.hold_background_for_verif(true);
+            for round in 0..4 {
+                db.put(WriteOptions::default(), b"a".to_vec(), format!("begin{}", round).into_bytes()).unwrap();
+                db.put(WriteOptions::default(), b"z".to_vec(), format!("end{}", round).into_bytes()).unwrap();
+                db.flush_to_level_zero_for_verif();
+            }
+            println!("level0_files={}", db.num_level_zero_files_for_verif());
+            let started = std::sync::Arc::new(std::sync::atomic::AtomicBool::new(false));
+            let s2 = std::sync::Arc::clone(&started);
+            hfs.on_create(".rdb", Box::new(move || {
+                s2.store(true, std::sync::atomic::Ordering::SeqCst);
+                std::thread::sleep(std::time::Duration::from_millis(2000));
+            }));
+            db.hold_background_for_verif(false);
+            println!("scheduled={}", db.schedule_compaction_for_verif());
+            let t0 = std::time::Instant::now();
+            while !started.load(std::sync::atomic::Ordering::SeqCst) && t0.elapsed().as_secs() < 10 {
+                std::thread::sleep(std::time::Duration::from_millis(20));
+            }
+            println!("compaction_started={}", started.load(std::sync::atomic::Ordering::SeqCst));
+            let closer = std::thread::spawn(move || drop(db));
+            std::thread::sleep(std::time::Duration::from_millis(500));
+            let mut o2 = o.clone();
+            o2.filesystem_provider = std::sync::Arc::clone(&disk);
+            println!("open_while_compaction_in_flight={}", if raindb::DB::open(o2.clone()).is_ok() { "ok" } else { "err" });
+            let _ = closer.join();
+            println!("open_after_close={}", if raindb::DB::open(o2).is_ok() { "ok" } else { "err" });
+        }
         // level_iter ops targetU:seq shape uk:seq:op:vv ... : cursor of the concatenating iterator over a level whose files hold
         // shape[i] consecutive entries each
         "level_iter" => {
